@@ -557,6 +557,49 @@ func (w *world) run() {
 			}
 		}
 	}
+	// degenerate collector: the first t+1 arrivals are ALL bad shares of one kind, taken blindly
+	// (every length / encoding class, so that e.g. an all-empty flattened array is reached)
+	if c.Bool(1, 12, "degenerate") {
+		kind := badKinds[c.Choose(len(badKinds), "degenerate.kind")]
+		var insp crypto.ThresholdSignatureInspector
+		var err error
+		if !w.guard("NewBLSThresholdSignatureInspector", func() {
+			insp, err = crypto.NewBLSThresholdSignatureInspector(w.gpk, w.pks, w.t, w.msgB, w.tag)
+		}) && err == nil {
+			col := &collector{id: 99, mode: 2, obj: insp, st: thrmodel.NewState()}
+			start := len(w.pool)
+			for i := 0; i <= w.t; i++ {
+				mkBad(kind, i)
+			}
+			e := *w.env
+			e.Pool = w.pool
+			col.env = &e
+			for i := 0; i <= w.t && !col.dead; i++ {
+				w.apply(col, thrmodel.Op{Name: "TrustedAdd", Orig: i, Share: start + i})
+			}
+			if !col.dead {
+				w.apply(col, thrmodel.Op{Name: "ThresholdSignature", Share: -1})
+			}
+			// the same through the stateless function
+			var sh []crypto.Signature
+			var who []int
+			for i := 0; i <= w.t; i++ {
+				sh = append(sh, w.pool[start+i].Bytes)
+				who = append(who, i)
+			}
+			var sig crypto.Signature
+			if !w.guard("BLSReconstructThresholdSignature(degenerate)", func() { sig, err = crypto.BLSReconstructThresholdSignature(w.n, w.t, sh, who) }) {
+				if err == nil && hex.EncodeToString(sig) != w.env.GroupSig {
+					hasher := crypto.NewExpandMsgXOFKMAC128(w.tag)
+					if ok, _ := w.gpk.Verify(sig, w.msgB, hasher); ok {
+						w.viol("C06", "unique", "stateless.second-valid-signature", "degenerate share list of kind %s reconstructs a second valid signature", kind)
+					}
+				}
+			}
+			out.Faults["degenerate_collector."+kind]++
+			w.fp = append(w.fp, "deg:"+kind)
+		}
+	}
 	// exhaustive subsets through the stateless API for small groups
 	if w.n <= 7 {
 		w.allSubsets()
